@@ -30,7 +30,8 @@ def main():
     sh(['rsync', '-a', '--exclude', '.git', '--exclude', 'replays', '--exclude', 'seeded', ROOT + '/', LAB + '/'])
     for f in ('check', 'lib/judges.py', 'harness/go.mod'):
         p = os.path.join(LAB, f)
-        open(p, 'w').write(open(p).read().replace('/repo', CLONE))
+        text = open(p).read().replace('/repo', CLONE)
+        open(p, 'w').write(text)
     ids = [c['property_id'] for c in json.load(open(os.path.join(ROOT, 'MANIFEST.json')))['checks']]
 
     def reset():
